@@ -187,8 +187,13 @@ def check_illegal(env: Any, s: Any, a: Any, s2: Any, ts: Any) -> List[str]:
             out.append(f"illegal-forward-drops-shelf: agent {i} at {here} (highway={bool(info['hw'][here])}) was "
                        f"carrying a shelf, its forward into the shelf at {t} is illegal and must be ignored, but "
                        f"is_carrying went {int(ac[i])} -> {int(bc[i])}")
+        # the shelf in the target cell may itself be the load of ANOTHER agent standing there, whose own (legal)
+        # move carries it away in the same step: that is not an effect of agent i's ignored forward
+        carried_by_other = any(k != i and bool(ac[k]) and (int(ax[k]), int(ay[k])) == t for k in range(info["n"]))
         for j in range(len(sx)):
             p = (int(sx[j]), int(sy[j]))
+            if p == t and carried_by_other:
+                continue
             if p in (here, t) and (int(tx[j]), int(ty[j])) != p:
                 out.append(f"illegal-forward-moves-shelf: shelf {j} at {p} moved to {(int(tx[j]), int(ty[j]))} on an "
                            f"ignored forward of agent {i}")
